@@ -52,8 +52,10 @@ RULE = ("generated Workflows of 3-8 steps (ValueFunctions; ResourceFunctions wit
         "(GET fault, mutation fault) plan. A case is one reconcile pass; non-trivial = a fault fired in it; distinct by "
         "(workflow, initial cluster, pass, call index, kind)")
 ASSUMPTIONS = [
-    "exception objects raised by the API layer are printable (str(exc) returns); one whose __str__ raises escapes "
-    "reconcile_workflow from a top-level step (theorem C09_pass_total_refuted, known finding)",
+    "the single-function fault MODEL (reconcile_rf_faulty) and its correspondence cover exception objects whose str() "
+    "returns: load_api_resource / _create_api_resource format the exception inside their handlers, so an unprintable one "
+    "leaves the function as the error its __str__ raised (the workflow layer then reports Retry 60; exercised by the "
+    "workflow-level fault runs and oracle, which include the unprintable object at every call)",
     "step results are never result.Ok INSTANCES (functions return bare values); checked on every observed result",
     "asyncio.TaskGroup / asyncio.timeout semantics (a raising task or the timeout cancels every unfinished task of the "
     "group; TaskGroup exits only when all its tasks are done) are observed under the virtual-time loop, not proved; the "
@@ -613,6 +615,8 @@ def closure(steps):
 def escape_problem(escaped, what_faulted, tag):
     """(signature, what) for a pass that did not return normally"""
     if "strraises" in what_faulted and escaped != "Deadlock":
+        # the signature under which this escape was repaired (known_findings.json "fixed"): a fixed entry
+        # suppresses nothing, so a regression is reported as an ordinary VIOLATION
         return ("exception whose __str__ raises escapes reconcile_workflow",
                 f"{escaped} escaped reconcile_workflow ({what_faulted}; {tag})")
     if escaped == "Deadlock":
@@ -734,7 +738,7 @@ def c_tend(e):
     if e is None or e[0] == "C":
         return "Cancelled"
     if e[0] == "E":
-        return f"(Excepted {cbool(e[1])})"
+        return "Excepted"
     return f"(Finished {c_sres(canon_oc(e[1]))})"
 
 
@@ -742,7 +746,7 @@ def c_otend(e):
     if e is None or e[0] == "C":
         return "OCancelled"
     if e[0] == "E":
-        return f"(OExcepted {cbool(e[1])})"
+        return "OExcepted"
     return f"(OFinished {c_oc(canon_oc(e[1]))})"
 
 
